@@ -1,14 +1,467 @@
-broadcast use {location_hash::axiom_program_location_obeys_key_model, location_hash::axiom_ref_program_location_obeys_key_model};
+// ======================================================================================
+// units/C09/fp_engine.rs - the forward solver of lib/analysis/fixed_point.rs under contract:
+// fixed_point_forward_options, fixed_point_forward.
+// The work-list invariants and one lemma per engine step are in units/C09/fp_theory.rs; this file
+// only ties the concrete data (HashMap<ProgramLocation, State>, VecDeque<ProgramLocation>) to
+// the abstract maps / sets of the theory.
+// ======================================================================================
+broadcast use {location_hash::axiom_program_location_obeys_key_model, vstd::std_specs::hash::axiom_random_state_builds_valid_hashers};
+
+/// the owned form of location `l` of function `f` (what `RefProgramLocation::into()` yields)
+pub open spec fn ploc(f: Function, l: Loc) -> ProgramLocation {
+    ProgramLocation { function_index: f.index, function_location: loc_fl(l) }
+}
+
+/// the abstract solution a `HashMap<ProgramLocation, State>` denotes for function `f`
+pub open spec fn fview<S>(m: Map<ProgramLocation, S>, f: Function) -> LMap<S> {
+    |l: Loc| if m.contains_key(ploc(f, l)) { Some(m[ploc(f, l)]) } else { None }
+}
+
+/// every key is a location of function `f` (carries f's function index)
+pub open spec fn fkeys_ok<S>(m: Map<ProgramLocation, S>, f: Function) -> bool {
+    forall|k: ProgramLocation| #[trigger] m.contains_key(k) ==> k.function_index == f.index
+}
+
+/// the abstract work list
+pub open spec fn fqueue(q: Seq<ProgramLocation>, f: Function) -> LSet {
+    |l: Loc| q.contains(ploc(f, l))
+}
+
+pub open spec fn fq_ok(q: Seq<ProgramLocation>, f: Function) -> bool {
+    forall|i: int| 0 <= i < q.len() ==> (#[trigger] q[i]).function_index == f.index
+}
+
+pub proof fn lemma_ploc_inj(f: Function, l: Loc, x: Loc)
+    ensures (ploc(f, l) == ploc(f, x)) <==> l == x, fl_loc(loc_fl(l)) == l,
+{
+}
+
+pub proof fn lemma_ploc_of(f: Function, k: ProgramLocation)
+    requires k.function_index == f.index,
+    ensures k == ploc(f, fl_loc(k.function_location)),
+{
+}
+
+pub proof fn lemma_fview_insert<S>(m: Map<ProgramLocation, S>, f: Function, x: Loc, v: S)
+    ensures fview(m.insert(ploc(f, x), v), f) == lm_upd(fview(m, f), x, v),
+{
+    assert forall|l: Loc| #[trigger] fview(m.insert(ploc(f, x), v), f)(l) == lm_upd(fview(m, f), x, v)(l) by {
+        lemma_ploc_inj(f, l, x);
+    }
+    assert(fview(m.insert(ploc(f, x), v), f) =~= lm_upd(fview(m, f), x, v));
+}
+
+pub proof fn lemma_fqueue_pop(q: Seq<ProgramLocation>, f: Function, x: Loc)
+    requires q.len() > 0, q[0] == ploc(f, x),
+    ensures forall|l: Loc| #![trigger fqueue(q, f)(l)] #![trigger fqueue(q.subrange(1, q.len() as int), f)(l)]
+        fqueue(q, f)(l) <==> (l == x || fqueue(q.subrange(1, q.len() as int), f)(l)),
+{
+    let r = q.subrange(1, q.len() as int);
+    let a = fqueue(q, f);
+    let b = fqueue(r, f);
+    assert forall|l: Loc| #![trigger a(l)] #![trigger b(l)] a(l) <==> (l == x || b(l)) by {
+        lemma_ploc_inj(f, l, x);
+        let k = ploc(f, l);
+        if q.contains(k) {
+            let i = choose|i: int| 0 <= i < q.len() && q[i] == k;
+            if i > 0 { assert(r[i - 1] == k); }
+        }
+        if r.contains(k) {
+            let i = choose|i: int| 0 <= i < r.len() && r[i] == k;
+            assert(q[i + 1] == k);
+        }
+    }
+}
+
+/// abstract locations of a list of borrowed program locations
+pub open spec fn rpl_locs(v: Seq<RefProgramLocation>) -> Seq<Loc> {
+    Seq::new(v.len(), |i: int| v[i].loc())
+}
+
+/// what `backward()` (forward analysis) / `forward()` (backward analysis) returns lists the inputs
+pub proof fn lemma_rpls_inputs(v: Seq<RefProgramLocation>, f: Function, fwd: bool, x: Loc, sel: spec_fn(Loc) -> bool)
+    requires lists_rpls(v, f, sel), forall|l: Loc| #![trigger sel(l)] sel(l) <==> input_of(f, fwd, x, l),
+    ensures
+        lists_inputs(f, fwd, x, rpl_locs(v)),
+        forall|i: int| 0 <= i < v.len() ==> *(#[trigger] v[i]).function == f && rfl_in(f, v[i].function_location),
+{
+    let ps = rpl_locs(v);
+    assert forall|i: int| 0 <= i < ps.len() implies input_of(f, fwd, x, #[trigger] ps[i]) by {
+        assert(sel(loc_of(v[i].function_location)));
+    }
+    assert forall|i: int, j: int| 0 <= i < j < ps.len() implies #[trigger] ps[i] != #[trigger] ps[j] by {
+        assert(loc_of(v[i].function_location) != loc_of(v[j].function_location));
+    }
+    assert forall|p: Loc| #[trigger] input_of(f, fwd, x, p) implies ps.contains(p) by {
+        assert(sel(p));
+        let i = choose|i: int| 0 <= i < v.len() && loc_of((#[trigger] v[i]).function_location) == p;
+        assert(ps[i] == p);
+    }
+}
+
+/// what `forward()` (forward analysis) / `backward()` (backward analysis) returns lists the followers
+pub proof fn lemma_rpls_steps(v: Seq<RefProgramLocation>, f: Function, fwd: bool, x: Loc, sel: spec_fn(Loc) -> bool)
+    requires lists_rpls(v, f, sel), forall|l: Loc| #![trigger sel(l)] sel(l) <==> step(f, fwd, x, l),
+    ensures
+        forall|i: int| 0 <= i < v.len() ==> *(#[trigger] v[i]).function == f && rfl_in(f, v[i].function_location) && step(f, fwd, x, v[i].loc()),
+        forall|l: Loc| #[trigger] step(f, fwd, x, l) ==> rpl_locs(v).contains(l),
+{
+    let ps = rpl_locs(v);
+    assert forall|i: int| 0 <= i < v.len() implies step(f, fwd, x, (#[trigger] v[i]).loc()) by {
+        assert(sel(loc_of(v[i].function_location)));
+    }
+    assert forall|l: Loc| #[trigger] step(f, fwd, x, l) implies ps.contains(l) by {
+        assert(sel(l));
+        let i = choose|i: int| 0 <= i < v.len() && loc_of((#[trigger] v[i]).function_location) == l;
+        assert(ps[i] == l);
+    }
+}
+
+/// a valid location can be applied to its function
+pub proof fn lemma_valid_applies(f: Function, fl: FunctionLocation)
+    requires loc_valid(f, fl_loc(fl)),
+    ensures fl_applies(f, fl),
+{
+}
+
+/// order-equivalence of optional states
+pub open spec fn opt_eqv<'f, S: 'f + Clone + Debug + PartialOrd, A: FixedPointAnalysis<'f, S>>(a: &A, x: Option<S>, y: Option<S>) -> bool {
+    opt_le(a, x, y) && opt_le(a, y, x)
+}
+
+/// one executed step of the predecessor fold computes (up to order-equivalence) one step of the spec fold
+pub proof fn lemma_fold_step_exec<'f, S: 'f + Clone + Debug + PartialOrd, A: FixedPointAnalysis<'f, S>>(a: &A, acc_exec: Option<S>, acc_spec: Option<S>, x: Option<S>, r: Option<S>)
+    requires
+        opt_inv(a, acc_exec), opt_inv(a, acc_spec), opt_inv(a, x), opt_eqv(a, acc_exec, acc_spec),
+        match x {
+            Some(xs) => r matches Some(rv) && a.st_inv(rv) && match acc_exec {
+                Some(s) => eqv(a, rv, a.join_spec(s, xs)),
+                None => eqv(a, rv, xs),
+            },
+            None => r == acc_exec,
+        },
+    ensures opt_inv(a, r), opt_eqv(a, r, fold_step(a, acc_spec, x)),
+{
+    lemma_opt_le_refl(a, x);
+    lemma_fold_step_mono(a, acc_exec, x, acc_spec, x);
+    lemma_fold_step_mono(a, acc_spec, x, acc_exec, x);
+    let e = fold_step(a, acc_exec, x);
+    let s = fold_step(a, acc_spec, x);
+    if x is Some {
+        let rv = r.unwrap();
+        a.law_le_trans(rv, e.unwrap(), s.unwrap());
+        a.law_le_trans(s.unwrap(), e.unwrap(), rv);
+    }
+}
+
+/// the executed transfer computes (up to order-equivalence) the transfer of the spec in-state
+pub proof fn lemma_trans_exec<'f, S: 'f + Clone + Debug + PartialOrd, A: FixedPointAnalysis<'f, S>>(a: &A, f: Function, fwd: bool, x: Loc, in_exec: Option<S>, in_spec: Option<S>, v: S)
+    requires
+        a.an_inv(f), f.function_wf(), fp_closure(f, fwd, x),
+        opt_inv(a, in_exec), opt_inv(a, in_spec), opt_eqv(a, in_exec, in_spec),
+        a.st_inv(v), eqv(a, v, a.trans_spec(f, x, in_exec)),
+    ensures eqv(a, v, a.trans_spec(f, x, in_spec)),
+{
+    a.law_trans_inv(f, fwd, x, in_exec);
+    a.law_trans_inv(f, fwd, x, in_spec);
+    if in_exec is Some {
+        a.law_trans_cong(f, fwd, x, in_exec.unwrap(), in_spec.unwrap());
+        a.law_trans_cong(f, fwd, x, in_spec.unwrap(), in_exec.unwrap());
+        a.law_le_trans(v, a.trans_spec(f, x, in_exec), a.trans_spec(f, x, in_spec));
+        a.law_le_trans(a.trans_spec(f, x, in_spec), a.trans_spec(f, x, in_exec), v);
+    }
+}
+
+/// the errors the solver may return
+pub open spec fn fp_error<'f, S: 'f + Clone + Debug + PartialOrd, A: FixedPointAnalysis<'f, S>>(a: &A, f: Function, fwd: bool, force: bool, e: Error) -> bool {
+    ||| start_loc(f, fwd) is None && e == (if fwd { Error::FixedPointRequiresEntry } else { Error::FixedPointRequiresExit })
+    ||| start_loc(f, fwd) is Some && fwd && e == Error::FixedPointMaxSteps
+    ||| start_loc(f, fwd) is Some && trans_failed(a, f, fwd, e)
+    ||| start_loc(f, fwd) is Some && !force && !a.monotone(f, fwd) && e is FixedPointOrdering
+}
+
+/// `e` is an error `trans` returned at a location of the closure
+pub open spec fn trans_failed<'f, S: 'f + Clone + Debug + PartialOrd, A: FixedPointAnalysis<'f, S>>(a: &A, f: Function, fwd: bool, e: Error) -> bool {
+    exists|l: Loc, s: Option<S>| fp_closure(f, fwd, l) && opt_inv(a, s) && #[trigger] a.trans_err(f, l, s, e)
+}
+
+/// the state of the popped location after the `Equal => continue` arm satisfies its equation
+pub proof fn lemma_equal_case<'f, S: 'f + Clone + Debug + PartialOrd, A: FixedPointAnalysis<'f, S>>(a: &A, f: Function, fwd: bool, st: LMap<S>, inq: LSet, li: LMap<S>,
+        x: Loc, ps: Seq<Loc>, v: S)
+    requires
+        f.function_wf(), a.an_inv(f),
+        a.cmp_exact() || a.monotone(f, fwd),
+        dom_inv(a, f, fwd, st, inq), inq(x), st(x) is Some,
+        a.monotone(f, fwd) ==> asc_inv(a, f, fwd, st, li),
+        lists_inputs(f, fwd, x, ps),
+        a.st_inv(v), eqv(a, v, a.trans_spec(f, x, in_fold(a, st, ps))),
+        vstd::std_specs::cmp::PartialOrdSpec::partial_cmp_spec(&v, &st(x).unwrap()) == Some(core::cmp::Ordering::Equal),
+    ensures eqv(a, st(x).unwrap(), a.trans_spec(f, x, in_fold(a, st, ps))),
+{
+    let old = st(x).unwrap();
+    lemma_queued(a, f, fwd, st, inq, x);
+    assert(opt_inv(a, st(x)));
+    lemma_inputs_inv(a, st, ps);
+    lemma_fold_inv(a, st, ps, ps.len());
+    let tv = a.trans_spec(f, x, in_fold(a, st, ps));
+    a.law_trans_inv(f, fwd, x, in_fold(a, st, ps));
+    if a.monotone(f, fwd) {
+        lemma_recomputed_above(a, f, fwd, st, inq, li, x, ps, v);
+        a.law_cmp_equal(f, fwd, v, old);
+    } else {
+        a.law_cmp_exact(v, old);
+    }
+    a.law_le_trans(old, v, tv);
+    a.law_le_trans(tv, v, old);
+}
+
+/// a monotone analysis never reaches the FixedPointOrdering error
+pub proof fn lemma_no_ordering_error<'f, S: 'f + Clone + Debug + PartialOrd, A: FixedPointAnalysis<'f, S>>(a: &A, f: Function, fwd: bool, st: LMap<S>, inq: LSet, li: LMap<S>,
+        x: Loc, ps: Seq<Loc>, v: S)
+    requires
+        f.function_wf(), a.an_inv(f), a.monotone(f, fwd),
+        dom_inv(a, f, fwd, st, inq), inq(x), st(x) is Some,
+        asc_inv(a, f, fwd, st, li),
+        lists_inputs(f, fwd, x, ps),
+        a.st_inv(v), eqv(a, v, a.trans_spec(f, x, in_fold(a, st, ps))),
+    ensures
+        a.le(st(x).unwrap(), v),
+        vstd::std_specs::cmp::PartialOrdSpec::partial_cmp_spec(&v, &st(x).unwrap()) == Some(core::cmp::Ordering::Equal)
+            || vstd::std_specs::cmp::PartialOrdSpec::partial_cmp_spec(&v, &st(x).unwrap()) == Some(core::cmp::Ordering::Greater),
+{
+    lemma_queued(a, f, fwd, st, inq, x);
+    assert(opt_inv(a, st(x)));
+    lemma_recomputed_above(a, f, fwd, st, inq, li, x, ps, v);
+    a.law_cmp_ascending(f, fwd, v, st(x).unwrap());
+}
+
+/// the queue-dependent part of the work-list invariant
+pub open spec fn q_inv<'f, S: 'f + Clone + Debug + PartialOrd, A: FixedPointAnalysis<'f, S>>(a: &A, f: Function, fwd: bool, eqs: bool, st: LMap<S>, inq: LSet) -> bool {
+    dom_inv(a, f, fwd, st, inq) && (eqs ==> eq_inv(a, f, fwd, st, inq))
+}
+
+/// the work list after enqueuing the first `n` listed followers: the rest of the old queue plus those followers
+pub open spec fn queue_rel(inq_rest: LSet, inq_new: LSet, locs: Seq<Loc>, n: int) -> bool {
+    forall|l: Loc| #![trigger inq_new(l)] inq_new(l) <==> (inq_rest(l) || exists|j: int| 0 <= j < n && locs[j] == l)
+}
+
+/// one iteration of the enqueue loop, whether or not the follower is pushed
+pub proof fn lemma_queue_rel_push(f: Function, inq_rest: LSet, q: Seq<ProgramLocation>, locs: Seq<Loc>, n: int)
+    requires queue_rel(inq_rest, fqueue(q, f), locs, n), 0 <= n < locs.len(),
+    ensures
+        q.contains(ploc(f, locs[n])) ==> queue_rel(inq_rest, fqueue(q, f), locs, n + 1),
+        queue_rel(inq_rest, fqueue(q.push(ploc(f, locs[n])), f), locs, n + 1),
+        fq_ok(q, f) ==> fq_ok(q.push(ploc(f, locs[n])), f),
+{
+    let k = ploc(f, locs[n]);
+    let q2 = q.push(k);
+    let a = fqueue(q, f);
+    let b = fqueue(q2, f);
+    assert forall|l: Loc| #![trigger b(l)] b(l) <==> (inq_rest(l) || exists|j: int| 0 <= j < n + 1 && locs[j] == l) by {
+        lemma_ploc_inj(f, l, locs[n]);
+        assert(a(l) <==> (inq_rest(l) || exists|j: int| 0 <= j < n && locs[j] == l));
+        if q2.contains(ploc(f, l)) {
+            let i = choose|i: int| 0 <= i < q2.len() && q2[i] == ploc(f, l);
+            if i < q.len() { assert(q[i] == ploc(f, l)); }
+        }
+        if q.contains(ploc(f, l)) {
+            let i = choose|i: int| 0 <= i < q.len() && q[i] == ploc(f, l);
+            assert(q2[i] == ploc(f, l));
+        }
+        if l == locs[n] { assert(q2[q.len() as int] == k); }
+    }
+    if q.contains(k) {
+        assert forall|l: Loc| #![trigger a(l)] a(l) <==> (inq_rest(l) || exists|j: int| 0 <= j < n + 1 && locs[j] == l) by {
+            assert(a(l) <==> (inq_rest(l) || exists|j: int| 0 <= j < n && locs[j] == l));
+        }
+    }
+}
 
 //@ source lib/analysis/fixed_point.rs
 //@ item const DEFAULT_MAX_ANALYSIS_STEPS
 
-//@ fn fn fixed_point_forward_options
+//@ fn fn fixed_point_forward_options loops=3
 //@ rewrite 1 `let state = location_predecessors .into_iter() .fold(None, |s, p| match` => `let mut state_acc: Option<State> = None; for p in it: location_predecessors.into_iter() { let s = state_acc; state_acc = match` ## R-fold: `iter.fold(init, |s, p| BODY)` is by definition `let mut acc = init; for p in iter { let s = acc; acc = BODY; } acc`; the closure body BODY is kept token for token
 //@ rewrite 1 `None => s, }); let mut state = analysis.trans(` => `None => s, }; } let state = state_acc; let mut state = analysis.trans(` ## R-fold: closes the loop of the rewritten fold and binds its result to the original name
+//@ rewrite 1 `for successor in location.forward()? {` => `let successors__ = location.forward()?; for successor in it2: successors__ {` ## R-let-iter: binds the iterated vector to a name before the loop and names the ghost iterator, so that invariants can mention them; evaluation order and the `?` are unchanged
 //@ spec
     requires function.function_wf(), analysis.an_inv(*function), max_analysis_steps < usize::MAX,
+    ensures
+        /*@no_entry*/ function.control_flow_graph.entry is None ==> r == Err::<HashMap<il::ProgramLocation, State>, Error>(Error::FixedPointRequiresEntry),
+        /*@domain*/ r matches Ok(m) ==> fkeys_ok(m@, *function) && solution_domain(*function, true, fview(m@, *function)),
+        /*@state_inv*/ r matches Ok(m) ==> lm_inv(&analysis, fview(m@, *function)),
+        /*@equations*/ r matches Ok(m) ==> (!force && (analysis.cmp_exact() || analysis.monotone(*function, true))
+            ==> solution_eqs(&analysis, *function, true, fview(m@, *function))),
+        /*@least*/ r matches Ok(m) ==> (!force && analysis.monotone(*function, true)
+            ==> solution_least(&analysis, *function, true, fview(m@, *function))),
+        /*@errors*/ r matches Err(e) ==> fp_error(&analysis, *function, true, force, e),
+//@ enter
+    let ghost f = *function;
+    let ghost eqs = !force && (analysis.cmp_exact() || analysis.monotone(f, true));
+    let ghost mono = !force && analysis.monotone(f, true);
+    let ghost mut li: LMap<State> = |l: Loc| None::<State>;
+    proof { Analysis::law_partial_cmp(); }
+//@ before 0 `let mut steps = 0;`
+    proof {
+        assert(start_loc(f, true) is Some);
+        let s0 = start_loc(f, true).unwrap();
+        assert(queue@ =~= seq![ploc(f, s0)]);
+        assert forall|l: Loc| #[trigger] fqueue(queue@, f)(l) <==> Some(l) == start_loc(f, true) by {
+            lemma_ploc_inj(f, l, s0);
+            if l == s0 { assert(queue@[0] == ploc(f, l)); }
+        }
+        lemma_inv_init(&analysis, f, true, fview(states@, f), fqueue(queue@, f), li);
+    }
 //@ loop 0
-    invariant true,
+    invariant
+        f == *function, function.function_wf(), analysis.an_inv(f), max_analysis_steps < usize::MAX,
+        eqs == (!force && (analysis.cmp_exact() || analysis.monotone(f, true))),
+        mono == (!force && analysis.monotone(f, true)),
+        <State as vstd::std_specs::cmp::PartialOrdSpec>::obeys_partial_cmp_spec(),
+        steps <= max_analysis_steps + 1,
+        start_loc(f, true) is Some,
+        fkeys_ok(states@, f), fq_ok(queue@, f),
+        dom_inv(&analysis, f, true, fview(states@, f), fqueue(queue@, f)),
+        eqs ==> eq_inv(&analysis, f, true, fview(states@, f), fqueue(queue@, f)),
+        mono ==> asc_inv(&analysis, f, true, fview(states@, f), li) && solution_least(&analysis, f, true, fview(states@, f)),
     decreases max_analysis_steps + 1 - steps,
+//@ before 0 `let location = queue.pop_front().unwrap();`
+    let ghost q0 = queue@;
+    let ghost st = fview(states@, f);
+    let ghost inq_old = fqueue(q0, f);
+    let ghost x = fl_loc(q0[0].function_location);
+    proof {
+        lemma_ploc_of(f, q0[0]);
+        assert(inq_old(x));
+        lemma_queued(&analysis, f, true, st, inq_old, x);
+        lemma_valid_applies(f, q0[0].function_location);
+    }
+//@ before 0 `let location_predecessors = location.backward()?;`
+    let ghost inq_rest = fqueue(queue@, f);
+    proof {
+        assert(queue@ == q0.subrange(1, q0.len() as int));
+        lemma_fqueue_pop(q0, f, x);
+        assert(location.rpl_wf() && location.loc() == x && *location.function == f);
+    }
+//@ before 0 `let mut state_acc`
+    let ghost pv = location_predecessors@;
+    let ghost ps = rpl_locs(pv);
+    proof {
+        assert((|l2: Loc| pred(*location.function, location.loc(), l2)) =~= (|l2: Loc| pred(f, x, l2)));
+        lemma_rpls_inputs(pv, f, true, x, |l2: Loc| pred(f, x, l2));
+        lemma_inputs_inv(&analysis, st, ps);
+    }
+//@ loop 1
+    invariant
+        it.seq() == pv, ps == rpl_locs(pv), st == fview(states@, f), lm_inv(&analysis, st),
+        forall|i: int| 0 <= i < pv.len() ==> *(#[trigger] pv[i]).function == f,
+        opt_inv(&analysis, state_acc),
+        opt_eqv(&analysis, state_acc, fold_in(&analysis, st, ps, it.index@ as nat)),
+//@ before 0 `let s = state_acc;`
+    let ghost acc0 = state_acc;
+    let ghost i0 = it.index@;
+    proof {
+        assert(p == pv[i0]);
+        assert(ps[i0] == p.loc());
+        assert(opt_inv(&analysis, st(ps[i0])));
+        lemma_inputs_inv(&analysis, st, ps);
+        lemma_fold_inv(&analysis, st, ps, i0 as nat);
+    }
+//@ after 0 `None => s, };`
+    proof {
+        let k = ploc(f, ps[i0]);
+        let xo = st(ps[i0]);
+        if xo is Some && acc0 is None {
+            analysis.law_clone(xo.unwrap(), state_acc.unwrap());
+        }
+        lemma_fold_step_exec(&analysis, acc0, fold_in(&analysis, st, ps, i0 as nat), xo, state_acc);
+    }
+//@ before 0 `let mut state = analysis.trans(`
+    let ghost in_exec = state;
+    proof {
+        assert(opt_eqv(&analysis, in_exec, in_fold(&analysis, st, ps)));
+        lemma_fold_inv(&analysis, st, ps, ps.len());
+    }
+//@ before 0 `if let Some(in_state) = states.get(&location.clone().into())`
+    let ghost v0 = state;
+    proof {
+        lemma_trans_exec(&analysis, f, true, x, in_exec, in_fold(&analysis, st, ps), v0);
+        assert(st(x) == (if states@.contains_key(ploc(f, x)) { Some(states@[ploc(f, x)]) } else { None }));
+    }
+//@ before 0 `continue;`
+    proof {
+        if eqs { lemma_equal_case(&analysis, f, true, st, inq_old, li, x, ps, v0); }
+        lemma_iter_equal(&analysis, f, true, st, inq_old, inq_rest, x, ps, eqs);
+    }
+//@ before 0 `return Err(Error::FixedPointOrdering(`
+    proof {
+        if analysis.monotone(f, true) { lemma_no_ordering_error(&analysis, f, true, st, inq_old, li, x, ps, v0); }
+    }
+//@ before 0 `states.insert(location.clone().into(), state);`
+    let ghost v = state;
+    let ghost st2 = lm_upd(st, x, v);
+    proof {
+        if mono {
+            if st(x) is Some { lemma_no_ordering_error(&analysis, f, true, st, inq_old, li, x, ps, v); }
+            lemma_iter_insert_mono(&analysis, f, true, st, inq_old, li, x, ps, v);
+            li = lm_upd_opt(li, x, in_fold(&analysis, st, ps));
+        }
+        lemma_fview_insert(states@, f, x, v);
+    }
+//@ before 0 `for successor in it2: successors__ {`
+    let ghost sv = successors__@;
+    let ghost locs = rpl_locs(sv);
+    proof {
+        assert(fview(states@, f) == st2);
+        assert((|l2: Loc| succ(*location.function, location.loc(), l2)) =~= (|l2: Loc| succ(f, x, l2)));
+        lemma_rpls_steps(sv, f, true, x, |l2: Loc| succ(f, x, l2));
+        assert forall|inq_new: LSet| #[trigger] queue_rel(inq_rest, inq_new, locs, locs.len() as int)
+            implies q_inv(&analysis, f, true, eqs, st2, inq_new) by {
+            assert forall|l: Loc| #![trigger inq_new(l)] #![trigger inq_rest(l)] #![trigger step(f, true, x, l)]
+                inq_new(l) <==> (inq_rest(l) || step(f, true, x, l)) by {
+                if step(f, true, x, l) { assert(locs.contains(l)); }
+                if exists|j: int| 0 <= j < locs.len() && locs[j] == l {
+                    let j = choose|j: int| 0 <= j < locs.len() && locs[j] == l;
+                    assert(step(f, true, x, sv[j].loc()));
+                }
+            }
+            lemma_iter_insert_dom(&analysis, f, true, st, inq_old, inq_rest, inq_new, x, v);
+            if eqs { lemma_iter_insert_eq(&analysis, f, true, st, inq_old, inq_rest, inq_new, x, ps, v); }
+        }
+        assert(queue_rel(inq_rest, fqueue(queue@, f), locs, 0));
+        assert forall|k: ProgramLocation| #[trigger] states@.contains_key(k) implies k.function_index == f.index by { }
+    }
+//@ loop 2
+    invariant
+        it2.seq() == sv, locs == rpl_locs(sv), f == *function,
+        forall|i: int| 0 <= i < sv.len() ==> *(#[trigger] sv[i]).function == f,
+        fq_ok(queue@, f), fkeys_ok(states@, f), fview(states@, f) == st2,
+        queue_rel(inq_rest, fqueue(queue@, f), locs, it2.index@),
+        forall|inq_new: LSet| #[trigger] queue_rel(inq_rest, inq_new, locs, locs.len() as int) ==> q_inv(&analysis, f, true, eqs, st2, inq_new),
+        mono ==> asc_inv(&analysis, f, true, st2, li) && solution_least(&analysis, f, true, st2),
+//@ after 0 `for successor in it2: successors__ {`
+    proof {
+        assert(successor == sv[it2.index@]);
+        assert(locs[it2.index@] == successor.loc());
+        lemma_queue_rel_push(f, inq_rest, queue@, locs, it2.index@);
+    }
+//@ before 0 `Ok(states)`
+    proof {
+        assert forall|l: Loc| !#[trigger] fqueue(queue@, f)(l) by { }
+        lemma_final(&analysis, f, true, fview(states@, f), fqueue(queue@, f), eqs);
+    }
+//@ end
+
+//@ fn fn fixed_point_forward
+//@ spec
+    requires function.function_wf(), analysis.an_inv(*function),
+    ensures
+        /*@no_entry*/ function.control_flow_graph.entry is None ==> r == Err::<HashMap<il::ProgramLocation, State>, Error>(Error::FixedPointRequiresEntry),
+        /*@domain*/ r matches Ok(m) ==> fkeys_ok(m@, *function) && solution_domain(*function, true, fview(m@, *function)),
+        /*@state_inv*/ r matches Ok(m) ==> lm_inv(&analysis, fview(m@, *function)),
+        /*@equations*/ r matches Ok(m) ==> (analysis.cmp_exact() || analysis.monotone(*function, true)
+            ==> solution_eqs(&analysis, *function, true, fview(m@, *function))),
+        /*@least*/ r matches Ok(m) ==> (analysis.monotone(*function, true)
+            ==> solution_least(&analysis, *function, true, fview(m@, *function))),
+        /*@errors*/ r matches Err(e) ==> fp_error(&analysis, *function, true, false, e),
 //@ end
